@@ -98,3 +98,104 @@ def registry_matches_naive_scan(history):
         del log[:]
         registry.process(Telegram(destination_address=IndividualAddress("1.1.1"), payload=GroupValueWrite(DPTBinary(1))))
         assert log == []
+
+
+# ------------------------------------------------------------------ every real device type: the index key is what the device uses
+
+
+def _real_device_cases(tier):
+    yield ("all",)
+
+
+def _build_real_devices(xknx):
+    """One device of every exported type with a distinct group address for every address argument of
+    its constructor (a Climate gets its own addresses *and* a ClimateMode)."""
+    import inspect
+
+    import xknx.devices as dv
+    from xknx.devices.climate import SetpointShiftMode
+
+    counter = [0]
+
+    def fresh():
+        counter[0] += 1
+        n = counter[0]
+        return f"{1 + n // 2048}/{(n // 256) % 8}/{n % 256}"
+
+    extra = {
+        "ExposeSensor": dict(value_type="temperature"),
+        "Sensor": dict(value_type="temperature"),
+        "NumericValue": dict(value_type="temperature"),
+        "RawValue": dict(payload_length=1),
+        "Scene": dict(scene_number=1),
+        "Climate": dict(setpoint_shift_mode=SetpointShiftMode.DPT6010),
+        "SelectDevice": dict(value_type="hvac_mode"),
+    }
+    out, used = [], {}
+    names = [n for n in dv.__all__ if inspect.isclass(getattr(dv, n)) and issubclass(getattr(dv, n), dv.Device) and getattr(dv, n) is not dv.Device]
+    for n in sorted(names):
+        cls = getattr(dv, n)
+        params = inspect.signature(cls.__init__).parameters
+        kw = {p: fresh() for p in params if p.startswith("group_address")}
+        kw.update({k: v for k, v in extra.get(n, {}).items() if k in params})
+        if n == "Climate":
+            mode_params = inspect.signature(dv.ClimateMode.__init__).parameters
+            kw["mode"] = dv.ClimateMode(xknx, "mode_of_climate", **{p: fresh() for p in mode_params if p.startswith("group_address")})
+        try:
+            d = cls(xknx, n.lower(), **kw)
+        except TypeError:
+            continue  # a type that needs further mandatory configuration is not built
+        out.append(d)
+        used[d.name] = [v for k, v in kw.items() if k.startswith("group_address")]
+        if n == "Climate":
+            used[d.name] += [str(ga) for ga in kw["mode"].group_addresses()]
+    return out, used, fresh
+
+
+@standin("C37", cases=_real_device_cases, kind="enum-native", exhaustive=False, bound="one device of every exported device type (a Climate with own addresses and a ClimateMode) built with a distinct group address for every address argument: group_addresses() - the registry's index key - holds exactly the addresses has_group_address() answers for (over all constructor addresses and two foreign ones), the attached mode's among them; registered in one registry, a telegram to each address reaches exactly the devices that use it, in registration order, and none after removal")
+def every_device_type_is_indexed_under_all_the_addresses_it_uses(_):
+    import asyncio
+
+    from xknx import XKNX
+
+    async def go():
+        import logging
+
+        logging.disable(logging.CRITICAL)  # (a date/time device in localtime mode warns about its ignored state address)
+        xknx = XKNX()
+        devices, used, fresh = _build_real_devices(xknx)
+        logging.disable(logging.NOTSET)
+        assert len(devices) >= 15, [d.name for d in devices]
+        universe = sorted({GroupAddress(a) for v in used.values() for a in v} | {GroupAddress(fresh()), GroupAddress(fresh())}, key=lambda g: g.raw)
+        for d in devices:
+            index_key = d.group_addresses()
+            for ga in universe:
+                assert (ga in index_key) == d.has_group_address(ga), (d.name, str(ga), "group_addresses() and has_group_address() disagree")
+            # (not every constructor address is used: a date/time device in localtime mode ignores its state
+            #  address by design - what counts is that index key and has_group_address() agree)
+            assert not used[d.name] or index_key, (d.name, "no address at all")
+            mode = getattr(d, "mode", None)
+            if isinstance(mode, Device):
+                for ga in mode.group_addresses():
+                    assert ga in index_key, (d.name, str(ga), "an address of the attached mode is missing")
+        registry = Devices(started=_Started())
+        for d in devices:
+            if d.name != "mode_of_climate":
+                registry.async_add(d)
+        registered = list(registry)
+        seen = []
+        for d in registered:
+            d.process = (lambda dev: (lambda telegram: seen.append(dev.name)))(d)
+        for ga in universe:
+            del seen[:]
+            registry.process(Telegram(destination_address=ga, payload=GroupValueWrite(DPTBinary(1))))
+            assert seen == [d.name for d in registered if d.has_group_address(ga)], (str(ga), seen)
+        for d in registered[::2]:
+            registry.async_remove(d)
+        left = list(registry)
+        for ga in universe:
+            del seen[:]
+            registry.process(Telegram(destination_address=ga, payload=GroupValueWrite(DPTBinary(1))))
+            assert seen == [d.name for d in left if d.has_group_address(ga)], (str(ga), seen)
+
+    asyncio.run(go())
